@@ -176,7 +176,8 @@ class BaseEdge(ABC):
 
         """
         jacobian = np.zeros(err.shape + (dim,))
-        p0 = self.vertices[vertex_index].pose.copy()
+        original_pose = self.vertices[vertex_index].pose
+        p0 = original_pose.copy()
 
         for d in range(dim):
             # update the pose
@@ -189,6 +190,9 @@ class BaseEdge(ABC):
 
             # restore the pose
             self.vertices[vertex_index].pose = p0.copy()
+
+        # Put back the very same pose object, so that not even the last bit of the pose changes
+        self.vertices[vertex_index].pose = original_pose
 
         return jacobian
 
